@@ -488,8 +488,7 @@ def r4_run_if(report, repo):
                'state result')
 
 
-def r5_thread_proc(report, repo):
-  rule = 'C05-R5'
+def r5_thread_proc(report, repo, rule='C05-R5'):
   report.rule(rule, 'T-DTABLE: PhaseExecutorThread._thread_proc: None -> '
               'CONTINUE; non-PhaseResult => raise; FAIL_SUBTEST without subtest '
               '=> raise; _thread_exception stores the exception outcome and '
